@@ -282,14 +282,22 @@ class Sym:
     def imag(self):
         return Sym({})
 
-    # floor division / modulo only on concrete divisors with concrete dividend (C11 uses SymInt)
+    # floor division / modulo: floor(x / y) is a fresh *integer* atom k with k <= x/y < k+1 (python/numpy floor semantics)
     def __floordiv__(self, o):
         b = Sym.lift(o)
         if b is None:
             return NotImplemented
         if self.is_const() and b.is_const():
+            if b.const_value() == 0:
+                raise ZeroDivisionError("Sym floor division by zero")
             return Sym(cp_const(self.const_value() // b.const_value()))
-        return NotImplemented
+        return ENGINE.floor_of(self / b)
+
+    def __rfloordiv__(self, o):
+        a = Sym.lift(o)
+        if a is None:
+            return NotImplemented
+        return a // self
 
     def __mod__(self, o):
         b = Sym.lift(o)
@@ -297,7 +305,25 @@ class Sym:
             return NotImplemented
         if self.is_const() and b.is_const():
             return Sym(cp_const(self.const_value() % b.const_value()))
-        return NotImplemented
+        return self - b * (self // b)
+
+    def __rmod__(self, o):
+        a = Sym.lift(o)
+        if a is None:
+            return NotImplemented
+        return a % self
+
+    def __divmod__(self, o):
+        q = self // o
+        if q is NotImplemented:
+            return NotImplemented
+        return q, self - Sym.lift(o) * q
+
+    def __floor__(self):
+        return ENGINE.floor_of(self)
+
+    def __ceil__(self):
+        return -ENGINE.floor_of(-self)
 
     # ------------------------------------------------------------------ comparisons
     def _cmp(self, o, op: str):
@@ -557,7 +583,10 @@ _Z3_CACHE: Dict[Any, Any] = {}
 def z3_atom(name: str):
     v = _Z3_ATOMS.get(name)
     if v is None:
-        v = z3.Int(name) if (ENGINE.int_atoms and not name.startswith("sqrt!")) else z3.Real(name)
+        if name.startswith("floor!"):
+            v = z3.Int(name)
+        else:
+            v = z3.Int(name) if (ENGINE.int_atoms and not name.startswith("sqrt!")) else z3.Real(name)
         _Z3_ATOMS[name] = v
     return v
 
@@ -861,6 +890,23 @@ class Engine:
         self.assume(z3.And(sz >= 0, sz * sz == x.z3()))
         self.path_cache[key] = s
         return s
+
+    def floor_of(self, x: "Sym") -> "Sym":
+        if x.is_const():
+            import math
+
+            return Sym(cp_const(math.floor(x.const_value())))
+        key = ("floor", tuple(sorted(x.num.items())), tuple(sorted(x.den.items())))
+        hit = self.path_cache.get(key)
+        if hit is not None:
+            return hit
+        n = sum(1 for k in self.path_cache if isinstance(k, tuple) and k and k[0] == "floor")
+        k = Sym.atom("floor!%d" % n)
+        kz = z3_atom("floor!%d" % n)
+        xz = x.z3()
+        self.assume(z3.And(z3.ToReal(kz) <= xz, xz < z3.ToReal(kz) + 1) if not self.int_atoms or x.den != _CP_ONE else z3.And(kz <= xz, xz < kz + 1))
+        self.path_cache[key] = k
+        return k
 
     def assume(self, t):
         """Constrain the current path; abandon it if infeasible."""
